@@ -4,48 +4,48 @@ COMMON_TRUST = [
     "correspondence harness (harness/, Rust) and the Lean driver's line protocol",
     "rustc dev-profile semantics of integer overflow and indexing",
 ]
-CODEC_RULE = "every message type x decoding parameter (Prio3 Count/Sum/Histogram/SumVec with 2-5 aggregators, Poplar1 with several bit lengths incl. 0, Prio2, ping-pong, primitives): honest encodings from real protocol runs, truncations, extensions, single-byte mutations, every alphabet value in first/last byte, all strings of length <= 2-3 over {00,01,7f,80,fe,ff}, header extremes (level 0xFFFF, counts 2^32-1, unknown tags), random strings; value-level round trips of Prio3 public share, input shares, verifier states / shares / messages (decode(encode(x)) == x, and verify_next on the decoded state gives the same result) for 1, 2 and 3 proofs; non-trivial = every case (each is a decode of a distinct byte string);"
+CODEC_RULE = "every message type x decoding parameter (Prio3 Count/Sum/Histogram/SumVec with 2-5 aggregators, Poplar1 with several bit lengths incl. 0, Prio2, ping-pong, primitives): honest encodings from real protocol runs, truncations, extensions, single-byte mutations, every alphabet value in first/last byte, all strings of length <= 2-3 over {00,01,7f,80,fe,ff}, header extremes (level 0xFFFF, counts 2^32-1, unknown tags), random strings; value-level round trips of Prio3 public share, input shares, verifier states / shares / messages (decode(encode(x)) == x, and verify_next on the decoded state gives the same result) for 1, 2 and 3 proofs; decoder roles 255, 256, 257, 256+n, 2^32, usize::MAX for Prio3 input shares and verify states; non-trivial = every case (each is a decode of a distinct byte string);"
 POP = "Poplar1 over a recording XOF and the IDPF PRG recorder (the model recomputes every step from the two tables): "
 PROPS = {
     "C15": {
         "modules": ["PrioProofs.Props.C15", "PrioProofs.Props.C15Laws"],
-        "rule": "every layer through the verif-hooks wrappers on random and planted tapes (extreme first words): uniform_below for 19 bounds (1, word boundaries 2^32 +-1, 2^64 +-1, 2^128, 3^50, a 142-bit bound), Bernoulli and Bernoulli-exp1 for 14 fractions incl. unreduced and 64-bit denominators, Bernoulli-exp and geometric for 9 parameters incl. 0 and >1, Laplace for 9 scales incl. 0 and 2^40/3, Gaussian for 8 sigmas incl. 0 and 1000/7; value and bytes consumed compared; add_noise for SumVec (both fields), Histogram, L1BoundSum with 5 epsilons: output vector and bytes consumed; exhaustive: every raw draw for bounds 1..130 (thorough 600) and every Bernoulli n/d with d <= 24 (thorough 64); frequency tests with 120k (thorough 1M) samples; non-trivial = all;",
+        "rule": "every layer through the verif-hooks wrappers on random and planted tapes (extreme first words): uniform_below for 19 bounds (1, word boundaries 2^32 +-1, 2^64 +-1, 2^128, 3^50, a 142-bit bound), Bernoulli and Bernoulli-exp1 for 14 fractions incl. unreduced and 64-bit denominators, Bernoulli-exp and geometric for 9 parameters incl. 0 and >1, Laplace for 9 scales incl. 0 and 2^40/3, Gaussian for 8 sigmas incl. 0 and 1000/7; value and bytes consumed compared; add_noise for SumVec (both fields), Histogram, L1BoundSum with 5 epsilons: output vector and bytes consumed; exhaustive: every raw draw for bounds 1..130 (thorough 600) and every Bernoulli n/d with d <= 24 (thorough 64); frequency tests with 120k (thorough 1M) samples; oracle for top-bit bounds: noise of scale >= 2^63 is further than 2^32 from zero in some coordinate; non-trivial = all;",
         "trusted": COMMON_TRUST + ["rand's Fill impl for [u32] and num-bigint/num-rational arithmetic (observed through the correspondence)"],
         "assumptions": ["the random source delivers independent uniform bytes (the property is conditional on it)", "Laplace / Gaussian normalisation: oracle only"],
     },
     "C03": {
-        "modules": ["PrioProofs.Props.C03", "PrioProofs.Props.C03E2E"],
-        "rule": "%sbit lengths {1,2,3,5,8,16,33} (thorough 12 lengths up to 130): batches with repeated inputs, admissible sequences of 1-4 levels incl. the leaf level, sorted candidate sets mixing prefixes of the inputs, siblings and random strings; every shard, verify_init (both aggregators), both verifier_shares_to_message rounds and both verify_next rounds as a correspondence case; unshard vs plain counts; heavy-hitters loop on 4/8/12-bit inputs; thorough: a 21850-bit tree at levels 21845-21848; every second candidate prefix is cut out of a longer packed bit vector (stored at bit offset 1 behind a zero, or at a larger offset); dense candidate sets (every prefix of the level) for bit lengths 3 and 4 (thorough 2-5); non-trivial = all;" % POP,
+        "modules": ["PrioProofs.Props.C03", "PrioProofs.Props.C03E2E", "PrioProofs.Props.Deployed2"],
+        "rule": "%sbit lengths {1,2,3,5,8,16,33} (thorough 12 lengths up to 130): batches with repeated inputs, admissible sequences of 1-4 levels incl. the leaf level, sorted candidate sets mixing prefixes of the inputs, siblings and random strings; every shard, verify_init (both aggregators), both verifier_shares_to_message rounds and both verify_next rounds as a correspondence case; unshard vs plain counts; heavy-hitters loop on 4/8/12-bit inputs; thorough: a 21850-bit tree at levels 21845-21848; every second candidate prefix is cut out of a longer packed bit vector (stored at bit offset 1 behind a zero, or at a larger offset); dense candidate sets (every prefix of the level) for bit lengths 3 and 4 (thorough 2-5); planted rejections in every XOF stream (the correlated-randomness streams verify_init fast-forwards through contain rejected draws) at every level of 4-, 6- and 9-bit trees; non-trivial = all;" % POP,
         "trusted": COMMON_TRUST + ["TurboSHAKE128 and the fixed-key AES PRG are parameters of the model (recorded tables in the correspondence)"],
         "assumptions": ["bit lengths above 130 are exercised by the oracle only (21850 bits, thorough)"],
     },
     "C04": {
         "modules": ["PrioProofs.Props.C04", "PrioProofs.Props.C04Counting"],
-        "rule": "%sbit lengths {1,2,3,5,8} (thorough up to 33), levels first / middle / last, candidates = on-path prefix, its sibling and random strings; per level 12 public-share alterations (data value, authenticator, seed bit, control bit of the correction word at the first, queried and last level), 5-7 alterations of each input share, 6 round-one share elements, 3 message elements, both round-two shares, a cancelling pair; every step as a correspondence case; malicious clients: IDPF programmed by hand with data values 2, p-1, 0 and random at every level and an arbitrary authenticator, input shares with hand-made correlated randomness (all zero / random / zero A with random B), all prefixes of the level as candidates for levels < 3, two verification keys each; non-trivial = all;" % POP,
+        "rule": "%sbit lengths {1,2,3,5,8} (thorough up to 33), levels first / middle / last, candidates = on-path prefix, its sibling and random strings; per level 12 public-share alterations (data value, authenticator, seed bit, control bit of the correction word at the first, queried and last level), 5-7 alterations of each input share, 6 round-one share elements, 3 message elements, both round-two shares, a cancelling pair; every step as a correspondence case; malicious clients: IDPF programmed by hand with data values 2, p-1, 0 and random at every level and an arbitrary authenticator, input shares with hand-made correlated randomness (all zero / random / zero A with random B), all prefixes of the level as candidates for levels < 3, two verification keys each; shares of length 0 and 2 and a round-two share against an empty one offered to the combiner; non-trivial = all;" % POP,
         "trusted": COMMON_TRUST + ["TurboSHAKE128 and the fixed-key AES PRG are parameters of the model"],
         "assumptions": ["the negligible-probability clause is not expressed; the oracle samples it with random keys"],
     },
     "C19": {
-        "modules": ["PrioProofs.Props.C19", "PrioProofs.Props.C19Linear"],
-        "rule": "input lengths {1,2,3,4,7,8,15,16,33,100} (thorough 15 lengths up to 1000): all-zero, all-one and random 0/1 vectors, each also with one entry replaced by 2, p-1, 3 or a random value; per report: reconstructed client proof vs the model's construct_proof, leader share, both verification messages at the derived point and at 0, 1, two interpolation nodes and a random point, the decision, the evaluation point from the HMAC/AES stream, streams with planted out-of-range / node / identity draws, alterations (+1, -1, random) of the first/last data element, f0, g0, h0, first/last packed element (thorough: 6 more positions), wrong-length shares; non-trivial = all;",
+        "modules": ["PrioProofs.Props.C19", "PrioProofs.Props.C19Linear", "PrioProofs.Props.Deployed2"],
+        "rule": "input lengths {1,2,3,4,7,8,15,16,33,100} (thorough 15 lengths up to 1000): all-zero, all-one and random 0/1 vectors, each also with one entry replaced by 2, p-1, 3 or a random value; per report: reconstructed client proof vs the model's construct_proof, leader share, both verification messages at the derived point and at 0, 1, two interpolation nodes and a random point, the decision, the evaluation point from the HMAC/AES stream, streams with planted out-of-range / node / identity draws, alterations (+1, -1, random) of the first/last data element, f0, g0, h0, first/last packed element (thorough: 6 more positions), wrong-length shares; corpus of nonces whose first two query draws are 2^20-th roots of unity (harness search-c19), replayed at dimension 2^19-1; non-trivial = all;",
         "trusted": COMMON_TRUST + ["HMAC-SHA256 and AES-128-CTR (hmac, sha2, aes, ctr crates): the key stream is a parameter of the model and is handed to it by the harness"],
         "assumptions": ["soundness up to 2n/p is sampled by the oracle, not expressed as a probability", "the theorems take a field context satisfying CtxOk (root chain, half, canonical ofNat, 2 != 0); that the deployed contexts satisfy it is C10's table_roots / C09's constants"],
     },
     "C14": {
         "modules": ["PrioProofs.Props.C14"],
-        "rule": "ParallelSum vs ParallelSumMultithreaded over Mul on Field64 and Field128: chunk counts {1,2,3,5,16,33} (thorough also 4,8,100) x wire lengths {1,2,4,16} (thorough up to 256), random polynomials, each with 8 (thorough 14) split trees incl. sequential, fully unbalanced, empty sides; thread pools of 1,2,3,8,16 (thorough 1-32) threads; malformed calls (short/long output, missing/extra/ragged/no polynomials, wire length beyond the NTT limit); whole Prio3 runs serial vs multithreaded for SumVec, Histogram, MultihotCountVec, L1BoundSum with (len, chunk) in {(1,1),(6,1),(6,2),(7,3),(5,16),(40,7),(64,8)} x (aggregators, proofs) in {(2,1),(3,2)} (thorough also (2,3)) x every pool; non-trivial = all;",
+        "rule": "ParallelSum vs ParallelSumMultithreaded over Mul on Field64 and Field128: chunk counts {1,2,3,5,16,33} (thorough also 4,8,100) x wire lengths {1,2,4,16} (thorough up to 256), random polynomials, each with 8 (thorough 14) split trees incl. sequential, fully unbalanced, empty sides; thread pools of 1,2,3,8,16 (thorough 1-32) threads; malformed calls (short/long output, missing/extra/ragged/no polynomials, wire length beyond the NTT limit); whole Prio3 runs serial vs multithreaded for SumVec, Histogram, MultihotCountVec, L1BoundSum with (len, chunk) in {(1,1),(6,1),(6,2),(7,3),(5,16),(40,7),(64,8)} x (aggregators, proofs) in {(2,1),(3,2)} (thorough also (2,3)) x every pool; constructor pairs incl. chunk length at / above the vector length and chunk length 1; non-trivial = all;",
         "trusted": COMMON_TRUST + ["rayon's contract for fold/reduce on an indexed parallel iterator (contiguous, order-preserving segments; identity elements may be inserted)"],
         "assumptions": ["the schedule actually taken by rayon is not observable; the theorem quantifies over all of them"],
     },
     "C16": {
         "modules": ["PrioProofs.Props.C16", "PrioProofs.Props.C16Poplar"],
-        "rule": "constructors of Sum, Average, Histogram, MultihotCountVec, SumVec, L1BoundSum over Field64 and Field128 on the argument lattice {0,1,2,3,8,1000,2^32-2,2^32-1,2^32,2^63-1,2^63,usize::MAX-1,usize::MAX} (thorough: 26 values incl. random ones; full cube for the 3-parameter constructors) x integer bounds {0,1,2,3,255,256,p-2,p-1,p,p+1,MAX}; accepted small instances must prove and verify their extreme measurements; encode_measurement on in-range, boundary, out-of-range and wrong-length measurements; Prio3::new on (aggregators, proofs) incl. 0, 254, 255; Prio2::new on 24 (thorough 64) lengths up to usize::MAX; Prio3 verify_init / verifier_shares_to_message / verify_next on hand-built leader shares (measurement or proofs empty, short, long, one proof of many), missing or unexpected blinds and parts, shares, states and messages of an instance with the opposite joint-randomness use, aggregator ids up to usize::MAX, share counts 0..512+n incl. 256+n; thorough: instances beyond the transform limit (600000 buckets, chunk 1) through prove and verify_init; Prio2, Poplar1 (zero bits, wrong heights, levels beyond the tree, depth 40000) and DP constructors by oracle; non-trivial = all;",
+        "rule": "constructors of Sum, Average, Histogram, MultihotCountVec, SumVec, L1BoundSum over Field64 and Field128 on the argument lattice {0,1,2,3,8,1000,2^32-2,2^32-1,2^32,2^63-1,2^63,usize::MAX-1,usize::MAX} (thorough: 26 values incl. random ones; full cube for the 3-parameter constructors) x integer bounds {0,1,2,3,255,256,p-2,p-1,p,p+1,MAX}; accepted small instances must prove and verify their extreme measurements; encode_measurement on in-range, boundary, out-of-range and wrong-length measurements; Prio3::new on (aggregators, proofs) incl. 0, 254, 255; Prio2::new on 24 (thorough 64) lengths up to usize::MAX; Prio3 verify_init / verifier_shares_to_message / verify_next on hand-built leader shares (measurement or proofs empty, short, long, one proof of many), missing or unexpected blinds and parts, shares, states and messages of an instance with the opposite joint-randomness use, aggregator ids up to usize::MAX, share counts 0..512+n incl. 256+n; thorough: instances beyond the transform limit (600000 buckets, chunk 1) through prove and verify_init; Prio2, Poplar1 (zero bits, wrong heights, levels beyond the tree, depth 40000) and DP constructors by oracle; Prio2::new accepts exactly the dimensions with 2*next_power_of_two(n+1) <= 2^20 (oracle); non-trivial = all;",
         "trusted": COMMON_TRUST + ["XOF expansion terminating and FLP query not panicking are hypotheses of the Prio3 no-panic theorems (decide is proved panic-free; C05/C11 cover query and the XOF by correspondence)"],
         "assumptions": ["allocation-proportional operations are exercised only below a memory budget (instances up to 2048 inputs, Poplar1 up to 40000 bits)", "Poplar1/Prio2 protocol operations and DP constructors: oracle only"],
     },
     "C01": {
-        "modules": ["PrioProofs.Props.C01", "PrioProofs.Props.C01E2E"],
-        "rule": "Prio3 over a recording XOF (every XOF invocation's key and output is recorded and the model recomputes the whole step from that table): Count, Sum at bit-width edges (incl. a 34-bit bound), Histogram with dividing / non-dividing / oversize chunks, SumVec, MultihotCountVec, L1BoundSum x (aggregators, proofs) in {(2,1),(3,1),(5,2),(2,3)}; every message passes through its wire codec; batches of 5 (thorough 24) valid measurements incl. the extremes, sharded, verified by all aggregators, aggregated and unsharded; non-trivial = all;",
+        "modules": ["PrioProofs.Props.C01", "PrioProofs.Props.C01E2E", "PrioProofs.Props.Deployed2"],
+        "rule": "Prio3 over a recording XOF (every XOF invocation's key and output is recorded and the model recomputes the whole step from that table): Count, Sum at bit-width edges (incl. a 34-bit bound), Histogram with dividing / non-dividing / oversize chunks, SumVec, MultihotCountVec, L1BoundSum x (aggregators, proofs) in {(2,1),(3,1),(5,2),(2,3)}; every message passes through its wire codec; batches of 5 (thorough 24) valid measurements incl. the extremes, sharded, verified by all aggregators, aggregated and unsharded; planted rejections (every 3rd / 5th 8-byte block of every XOF stream is a value the sampler refuses) through whole Count / Sum / Histogram / SumVec runs; Prio3 Histogram, SumVec (2 proofs), MultihotCountVec and L1BoundSum driven through the ping-pong topology and compared with the broadcast execution; non-trivial = all;",
         "trusted": COMMON_TRUST + ["TurboSHAKE128 is a parameter of the model (recorded table in the correspondence)"],
         "assumptions": ["Average's final float division is outside the model (the integer sum and count are compared)"],
     },
@@ -57,24 +57,24 @@ PROPS = {
     },
     "C17": {
         "modules": ["PrioProofs.Props.C17"],
-        "rule": "Poplar1 (bit lengths 1-64): pairs of inputs sharded with identical randomness and nonce, input shares compared byte-wise, each shard a correspondence case; Prio3 over a recording XOF (every XOF invocation's key and output is recorded and the model recomputes the whole step from that table): Count, Sum at bit-width edges (incl. a 34-bit bound), Histogram with dividing / non-dividing / oversize chunks, SumVec, MultihotCountVec, L1BoundSum x (aggregators, proofs) in {(2,1),(3,1),(5,2),(2,3)}; every message passes through its wire codec; pairs of measurements sharded with identical randomness and nonce; byte-wise comparison of helper shares, blinds, joint-randomness parts and the leader-share difference; single-aggregator Prio3 instances (the leader share still has the encoding's length); non-trivial = all;",
+        "rule": "Poplar1 (bit lengths 1-64): pairs of inputs sharded with identical randomness and nonce, input shares compared byte-wise, each shard a correspondence case; Prio3 over a recording XOF (every XOF invocation's key and output is recorded and the model recomputes the whole step from that table): Count, Sum at bit-width edges (incl. a 34-bit bound), Histogram with dividing / non-dividing / oversize chunks, SumVec, MultihotCountVec, L1BoundSum x (aggregators, proofs) in {(2,1),(3,1),(5,2),(2,3)}; every message passes through its wire codec; pairs of measurements sharded with identical randomness and nonce; byte-wise comparison of helper shares, blinds, joint-randomness parts and the leader-share difference; single-aggregator Prio3 instances (the leader share still has the encoding's length); encodings longer than one 256-element block (Histogram 600, SumVec 300); non-trivial = all;",
         "trusted": COMMON_TRUST,
         "assumptions": [],
     },
     "C18": {
         "modules": ["PrioProofs.Props.C18"],
-        "rule": "Poplar1 (bit lengths 1-33, first and leaf level): context / nonce / key substituted at the leader, the helper or both, swapped and duplicated shares, every step a correspondence case; Prio3 over a recording XOF (every XOF invocation's key and output is recorded and the model recomputes the whole step from that table): Count, Sum at bit-width edges (incl. a 34-bit bound), Histogram with dividing / non-dividing / oversize chunks, SumVec, MultihotCountVec, L1BoundSum x (aggregators, proofs) in {(2,1),(3,1),(5,2),(2,3)}; every message passes through its wire codec; every single-aggregator and all-aggregator substitution of context, nonce and verification key, swapped helper shares and identifiers, another algorithm identifier; contexts of 0, 55, 66, 129, 167, 300 and 1000 bytes whose substitute differs in the last byte (Prio3 and Poplar1); Prio3 over XofHmacSha256Aes128 through the generic constructor (oracle only); recorder oracle over the whole run: two XOF invocations with different (seed, dst, binder) never give the same first 128 stream bits; non-trivial = all;",
+        "rule": "Poplar1 (bit lengths 1-33, first and leaf level): context / nonce / key substituted at the leader, the helper or both, swapped and duplicated shares, every step a correspondence case; Prio3 over a recording XOF (every XOF invocation's key and output is recorded and the model recomputes the whole step from that table): Count, Sum at bit-width edges (incl. a 34-bit bound), Histogram with dividing / non-dividing / oversize chunks, SumVec, MultihotCountVec, L1BoundSum x (aggregators, proofs) in {(2,1),(3,1),(5,2),(2,3)}; every message passes through its wire codec; every single-aggregator and all-aggregator substitution of context, nonce and verification key, swapped helper shares and identifiers, another algorithm identifier; contexts of 0, 55, 66, 129, 167, 300 and 1000 bytes whose substitute differs in the last byte (Prio3 and Poplar1); Prio3 over XofHmacSha256Aes128 through the generic constructor (oracle only); recorder oracle over the whole run: two XOF invocations with different (seed, dst, binder) never give the same first 128 stream bits; single-candidate aggregation parameters in Poplar1; algorithm identifiers differing in bit 0, 9, 16, 20, 27, 31; non-trivial = all;",
         "trusted": COMMON_TRUST + ["rejection under a mismatch relies on the XOF behaving as a random oracle: the theorems show that every mismatched quantity enters a tag or binder injectively and that the nonce exception is exact; the correspondence and oracle check the outcomes"],
         "assumptions": [],
     },
     "C05": {
         "modules": ["PrioProofs.Props.C05", "PrioProofs.Props.C05Language", "PrioProofs.Props.Deployed"],
-        "rule": "all circuits (Count, Sum/Average at bit-width edges, Histogram with dividing / non-dividing / oversize chunk lengths, SumVec, MultihotCountVec, L1BoundSum) x valid encodings and invalid vectors (non-bits, wrong weight, inconsistent norm, affine-only near-misses) x randomness (uniform, zeros, ones, repeats, roots of unity of the wire domain) x 1,2,3,5 shares with random and degenerate sharings x every wrong length; byte-exact proofs, verifier messages and decisions; non-trivial = all;",
+        "rule": "all circuits (Count, Sum/Average at bit-width edges, Histogram with dividing / non-dividing / oversize chunk lengths, SumVec, MultihotCountVec, L1BoundSum) x valid encodings and invalid vectors (non-bits, wrong weight, inconsistent norm, affine-only near-misses) x randomness (uniform, zeros, ones, repeats, roots of unity of the wire domain) x 1,2,3,5 shares with random and degenerate sharings x every wrong length; byte-exact proofs, verifier messages and decisions; vectors whose only defect is one non-bit entry at the first / middle / last-but-one / last position (solved from the linear relation) for Histogram, MultihotCountVec and L1BoundSum; chunk lengths that divide the vector length but not the encoded length and the reverse; non-trivial = all;",
         "trusted": COMMON_TRUST,
         "assumptions": ["soundness is sampled by the oracle (honestly proved invalid inputs and altered gadget-polynomial elements are rejected under uniform randomness); it is not expressed as a probability"],
     },
     "C06": {
-        "modules": ["PrioProofs.Props.C06"],
+        "modules": ["PrioProofs.Props.C06", "PrioProofs.Props.C06Bytes"],
         "rule": "Poplar1 payloads (pairs of Field64 / Field255) with extreme and random values; bit lengths 1-5 (thorough 1-7): both parties evaluated at every prefix of every length in shuffled order against NoCache, HashMapCache and RingBufferCache of capacity 0,1,2,3,7; bit lengths 8,12,33,64: on-path, diverging-at-random-depth and random prefixes; error arguments; the model recomputes key generation and every evaluation from the recorded extend/convert table; non-trivial = all;",
         "trusted": COMMON_TRUST + ["the PRGs (fixed-key AES / TurboSHAKE128 behind extend and convert) are parameters of the theorems and a recorded table in the correspondence run"],
         "assumptions": ["payload types form commutative groups (C09 for Field64; Field255 via fiat-crypto trusted)"],
@@ -93,38 +93,38 @@ PROPS = {
     },
     "C10": {
         "modules": ["PrioProofs.Props.C10", "PrioProofs.Props.Deployed"],
-        "rule": "three NTT fields: every power-of-two size up to 2^9 (thorough 2^12): all basis vectors (sizes <= 32) or four of them, random vectors, shorter (zero-padded) inputs, with and without the next-order shift; inverse of each forward transform; root powers for every size; size/capacity violations; Lagrange evaluation at random points and exactly at the nodes; extension from every partial length; doubling; multiplication; monomial helpers; range-check polynomials; non-trivial = all;",
+        "rule": "three NTT fields: every power-of-two size up to 2^9 (thorough 2^12): all basis vectors (sizes <= 32) or four of them, random vectors, shorter (zero-padded) inputs, with and without the next-order shift; inverse of each forward transform; root powers for every size; size/capacity violations; Lagrange evaluation at random points and exactly at the nodes; extension from every partial length; doubling; multiplication; monomial helpers; range-check polynomials; Mul::eval_poly and ParallelSum::eval_poly into used (non-zero) output buffers with zero operands; non-trivial = all;",
         "trusted": COMMON_TRUST,
         "assumptions": ["the model transcribes the loops of ntt.rs/polynomial.rs over arrays; agreement with the code is by correspondence on a basis of the (linear) input space for every tested size", "the DFT theorem is over an abstract commutative ring with a root chain; the deployed tables are checked against the chain by kernel evaluation in the Nat-mod-p model of C09"],
     },
     "C11": {
         "modules": ["PrioProofs.Props.C11"],
         "posthash": True,
-        "rule": "tapes with a planted rejection at every chunk position across two buffer refills, double/triple rejections around positions 30-33 and 62-65, a run of 40 rejections, random patterns, for all four fields and three output lengths; field switch Field64->Field255 (hook) on tapes with planted rejections; unbuffered sampler; 3 XOFs x tag/binder lengths {0,1,8,9,40,200}x{0,1,16,17,100} with random splittings and read sizes (the model's absorbed message is hashed with the raw turboshake/hmac/aes crates and must reproduce the library's stream); fixed-key stream under read-size sequences incl. 0, 1, 15-17, 16; non-trivial = all;",
+        "rule": "tapes with a planted rejection at every chunk position across two buffer refills, double/triple rejections around positions 30-33 and 62-65, a run of 40 rejections, random patterns, for all four fields and three output lengths; field switch Field64->Field255 (hook) on tapes with planted rejections; unbuffered sampler; 3 XOFs x tag/binder lengths {0,1,8,9,40,200}x{0,1,16,17,100} with random splittings and read sizes (the model's absorbed message is hashed with the raw turboshake/hmac/aes crates and must reproduce the library's stream); fixed-key stream under read-size sequences incl. 0, 1, 15-17, 16; word reads (next_u32 / next_u64) interleaved with byte reads on every XOF stream; oracle on the field switch: outputs = successive accepted chunks of the tape; non-trivial = all;",
         "trusted": COMMON_TRUST + ["TurboSHAKE128, HMAC-SHA256, AES-128 and CTR mode (turboshake, hmac, sha2, aes, ctr crates): modelled as functions of the absorbed message / as position-determined streams"],
         "assumptions": ["`Update::update` of the hash crates is concatenative; the TurboSHAKE reader and AES-CTR keystream are position-determined (checked by the oracle on random read sizes, not proved)"],
     },
     "C12": {
         "modules": ["PrioProofs.Props.C12"],
-        "rule": "instrumented order-sensitive aggregator with 1-4 rounds: every delivery sequence of depth 4 (thorough 5) over {correct, bit-flipped, truncated, re-typed to each of the three kinds, stale/replayed}, each followed by correct deliveries to completion, with a persist-reload-evaluate of every continuation; Prio3Sum and Poplar1 honest ping-pong runs against the broadcast execution; non-trivial = all scripts (each exercises a distinct delivery history);",
+        "rule": "instrumented order-sensitive aggregator with 1-4 rounds: every delivery sequence of depth 4 (thorough 5) over {correct, bit-flipped, truncated, re-typed to each of the three kinds, stale/replayed}, each followed by correct deliveries to completion, with a persist-reload-evaluate of every continuation; Prio3Sum and Poplar1 honest ping-pong runs against the broadcast execution; delivery kind 'p' (embedded payload followed by an extra byte) in every script position; Prio3 Histogram / SumVec (2 proofs) / MultihotCountVec / L1BoundSum and Poplar1 through ping-pong against broadcast, padded round-two shares; non-trivial = all scripts (each exercises a distinct delivery history);",
         "trusted": COMMON_TRUST + ["the toy aggregator is implemented twice (Rust trait impl and Lean) from one specification"],
         "assumptions": ["crash/restart is modelled as encode -> decode -> evaluate of the continuation; the storage layer is outside the library"],
     },
     "C13": {
         "modules": ["PrioProofs.Props.C13"],
-        "rule": "random multisets of 1-7 output shares of length 0-5 over four fields (extremes 0 and p-1 with probability 1/4), random permutation, random partition into batches, random merge-tree shape and merge direction, pairwise merges with length mismatch in 1/3 of the cases, Poplar1FieldVec kind/length mismatches; non-trivial = all;",
+        "rule": "random multisets of 1-7 output shares of length 0-5 over four fields (extremes 0 and p-1 with probability 1/4), random permutation, random partition into batches, random merge-tree shape and merge direction, pairwise merges with length mismatch in 1/3 of the cases, Poplar1FieldVec kind/length mismatches; Aggregator::aggregate with a wrong-shape share at every position of the batch (Prio3Histogram, Poplar1 inner and leaf); non-trivial = all;",
         "trusted": COMMON_TRUST,
         "assumptions": ["field addition is a commutative monoid (C09 for the macro fields; Field255 via fiat-crypto is trusted)"],
     },
     "C20": {
         "modules": ["PrioProofs.Props.C20"],
-        "rule": "exhaustive for 2-bit inputs (every non-empty prefix set at every level x every history of length <= 2), every (current, last) pair for 3-bit inputs (quick: every 5th), sampled histories of length 2-4, refinement walks over 12-bit inputs with perturbed and reordered histories; constructor on every ordered list of <= 3 prefixes from a pool with duplicates / mixed lengths / empty prefix, lengths 65535..65537, random lists; non-trivial = all;",
+        "rule": "exhaustive for 2-bit inputs (every non-empty prefix set at every level x every history of length <= 2), every (current, last) pair for 3-bit inputs (quick: every 5th), sampled histories of length 2-4, refinement walks over 12-bit inputs with perturbed and reordered histories; constructor on every ordered list of <= 3 prefixes from a pool with duplicates / mixed lengths / empty prefix, lengths 65535..65537, random lists; deep histories over 200-bit inputs with one to three candidates per level and steps landing on and around levels 31/32, 63/64, 127/128 (honest, off-ancestor, unrelated, repeated level); non-trivial = all;",
         "trusted": COMMON_TRUST + ["bitvec's Ord on bit slices (lexicographic, then length) as read in the vendored source"],
         "assumptions": [],
     },
     "C09": {
         "modules": ["PrioProofs.Props.C09", "PrioProofs.Props.C09Inv"],
-        "rule": "operand lattice (0,1,2,3,p-3..p-1,(p±1)/2,2^k,2^k±1,limb masks,R mod p) x itself, random and low-weight operands, every operand pair of the 8-bit instantiation; non-trivial = all (every case exercises the limb code);",
+        "rule": "operand lattice (0,1,2,3,p-3..p-1,(p±1)/2,2^k,2^k±1,limb masks,R mod p) x itself, random and low-weight operands, every operand pair of the 8-bit instantiation; Field255 (oracle only): arithmetic, byte and u64 conversions on a lattice around 2^64, 2^128, 2^192, p and random values, non-canonical encodings (top bit, >= p) through both byte conversions; non-trivial = all (every case exercises the limb code);",
         "trusted": COMMON_TRUST + ["Field255 limb code (fiat-crypto) is outside this check"],
         "assumptions": ["the hook instantiations FP8/FP16S run the same generic code as FP32/FP64/FP128 (they are produced by the same macros)"],
     },
